@@ -161,6 +161,9 @@ func (sc *spanChecker) checkNode(n ast.Node) {
 	}
 	if end < pos {
 		sc.badEnd[n] = true
+		if sc.endBlamedOnChild(n) {
+			return
+		}
 		sc.add("end-before-pos:"+kind, fmt.Sprintf("%s: End %d < Pos %d in %q", kind, end, pos, clip(sc.p.src)))
 		return
 	}
@@ -231,7 +234,7 @@ func (sc *spanChecker) checkTree(root ast.Node) {
 	var rec func(n ast.Node)
 	rec = func(n ast.Node) {
 		syn := synthetic(n)
-		kids := syntree.Children(n)
+		kids := syntree.OrderedChildren(n)
 		for _, c := range kids {
 			if synthetic(c.Node) {
 				if fd := c.Node.(*ast.FuncDecl); fd.Body != nil {
@@ -325,9 +328,11 @@ func (sc *spanChecker) checkModelSpans(root ast.Node, c *Case) (drift string) {
 		}
 		if end != wantEnd {
 			sc.badEnd[n] = true
-			if end < pos {
+			if sc.endBlamedOnChild(n) {
+				// derived from a child's wrong End: not a second defect
+			} else if end <= pos {
 				sc.add("end-before-pos:"+kind, d)
-			} else if !sc.endBlamedOnChild(n) {
+			} else {
 				if end < wantEnd {
 					sc.add("end-short:"+kind, d)
 				} else {
